@@ -229,27 +229,34 @@ func parent(ck *checks.Check, tier string, dl time.Duration) int {
 		}
 		// re-execute 5 times, each in a fresh process, before believing it; a finding that only
 		// shows after the calls that preceded it in its shard is replayed with that history
-		alone, withHist := reproduces(self, ck, &f, false), false
-		if !alone && len(f.History) > 0 {
-			withHist = reproduces(self, ck, &f, true)
-		}
-		if !alone && !withHist {
-			// state leaked into this case from calls older than the recorded history (or the case
-			// is flaky): not believed on its own; another finding must confirm the violation
-			unconfirmed++
-			if unconfirmed <= 5 {
-				fmt.Fprintf(os.Stderr, "unconfirmed finding (did not reproduce in a fresh process, alone or after its %d preceding calls): %s: %s\n", len(f.History), f.Key, firstLines(f.Msg, 2))
-			}
-			if examined++; examined > 60 {
-				break
-			}
-			continue
-		}
-		if alone {
+		mode := ""
+		switch {
+		case reproduces(self, ck, &f, nil, 5) == 5:
 			f.History = nil
-		} else {
+		case len(f.History) > 0 && reproduces(self, ck, &f, f.History, 5) == 5:
+			mode = fmt.Sprintf("history-dependent: reproduces only after the %d preceding calls of the same process (recorded in the replay file)", len(f.History))
 			f.NeedHistory = true
-			f.Msg += fmt.Sprintf("\n  history-dependent: reproduces only after the %d preceding calls of the same process (recorded in the replay file)", len(f.History))
+		case reproduces(self, ck, &f, []core.Case{f.Case, f.Case, f.Case}, 5) == 5:
+			mode = "history-dependent: reproduces when the same call is repeated in one process (replay repeats it four times)"
+			f.History, f.NeedHistory = []core.Case{f.Case, f.Case, f.Case}, true
+		default:
+			// not deterministic: the same call in a fresh process sometimes shows it
+			k := reproduces(self, ck, &f, nil, 20)
+			if k == 0 {
+				unconfirmed++
+				if unconfirmed <= 5 {
+					fmt.Fprintf(os.Stderr, "unconfirmed finding (did not reproduce in 20 fresh processes, nor after its %d preceding calls, nor repeated): %s: %s\n", len(f.History), f.Key, firstLines(f.Msg, 2))
+				}
+				if examined++; examined > 40 {
+					break
+				}
+				continue
+			}
+			mode = fmt.Sprintf("intermittent: the same call shows it in %d of 20 freshly started processes (the library does not behave deterministically)", k)
+			f.History = nil
+		}
+		if mode != "" {
+			f.Msg += "\n  " + mode
 		}
 		nviol++
 		if nviol > 12 {
@@ -326,33 +333,34 @@ func gomaxprocs(ck *checks.Check, n int) string {
 	return "2"
 }
 
-// reproduces re-executes a finding five times, each time in a fresh process
-// (explorer --replay), optionally preceded by its recorded history.
-func reproduces(self string, ck *checks.Check, f *core.Finding, withHistory bool) bool {
+// reproduces re-executes a finding n times, each time in a fresh process (explorer --replay),
+// optionally preceded by a history, and returns how often the finding showed. It stops early
+// when a run does not show it and n == 5 (the all-or-nothing modes).
+func reproduces(self string, ck *checks.Check, f *core.Finding, history []core.Case, n int) int {
 	g := *f
-	g.NeedHistory = withHistory
-	if !withHistory {
-		g.History = nil
-	}
+	g.History = history
+	g.NeedHistory = len(history) > 0
 	tmp, err := os.CreateTemp(filepath.Dir(self), "repro*.json")
 	if err != nil {
-		return false
+		return 0
 	}
 	tmp.Close()
 	defer os.Remove(tmp.Name())
 	if core.WriteJSON(tmp.Name(), g) != nil {
-		return false
+		return 0
 	}
-	for k := 0; k < 5; k++ {
+	hits := 0
+	for k := 0; k < n; k++ {
 		cmd := exec.Command(self, ck.ID, "--replay", tmp.Name())
 		cmd.Env = os.Environ()
 		err := cmd.Run()
-		ee, ok := err.(*exec.ExitError)
-		if !ok || ee.ExitCode() != 1 {
-			return false
+		if ee, ok := err.(*exec.ExitError); ok && ee.ExitCode() == 1 {
+			hits++
+		} else if n == 5 {
+			return hits
 		}
 	}
-	return true
+	return hits
 }
 
 func doReplay(ck *checks.Check, path string) int {
